@@ -497,3 +497,114 @@ Contract(
     note="the only heap effect is the defaultdict entry created for a parentless node",
     props=("C18", "C02"),
 )
+
+
+# =================================================================================================
+# C06: a task graph is reported finished exactly when all its sink tasks completed
+# (TaskGraph.is_sink_task / get_sink_tasks / is_complete / is_cancelled against the definition)
+# =================================================================================================
+OptINT = S_.OptINT if hasattr(S_, "OptINT") else None
+
+
+def n_children(h, g, t):
+    return h.c_len(TaskList, h.d_val(Adj, g_children(h, g), t))
+
+
+def child_at0(h, g, t, j):
+    return h.l_elem(TaskList, h.d_val(Adj, g_children(h, g), t), j)
+
+
+def _ts(h, t):
+    return T.opt_get(S_.OptINT, h.rd(t, TASK, "_timestamp")[1])
+
+
+def _ts_known(h, t):
+    return z3.Not(T.opt_is_none(S_.OptINT, h.rd(t, TASK, "_timestamp")[1]))
+
+
+def is_sink_spec(h, g, t):
+    """a sink: no child, or a single child that is the same task of the next timestamp"""
+    c0 = child_at0(h, g, t, 0)
+    return z3.Or(
+        n_children(h, g, t) == 0,
+        z3.And(n_children(h, g, t) == 1, h.rd(c0, TASK, "_name")[1] == h.rd(t, TASK, "_name")[1], _ts(h, c0) == _ts(h, t) + 1),
+    )
+
+
+def in_graph(h, g, t):
+    return h.d_dom(Adj, g_children(h, g), t)
+
+
+def graph_complete_spec(h, g):
+    """C06: all sink tasks of the graph are complete (EVICTED / COMPLETED)"""
+    t = z3.Int(H.fresh_name("gc_t"))
+    return z3.ForAll([t], z3.Implies(z3.And(in_graph(h, g, t), is_sink_spec(h, g, t)), is_complete_state(task_state(h, t))), patterns=[in_graph(h, g, t)])
+
+
+def graph_cancelled_spec(h, g):
+    t = z3.Int(H.fresh_name("gx_t"))
+    return z3.Exists([t], z3.And(in_graph(h, g, t), is_sink_spec(h, g, t), task_state(h, t) == CANCELLED))
+
+
+def _children_wf(h, g):
+    """every node has a child list object; children are non-null tasks"""
+    t, j = z3.Int(H.fresh_name("cw_t")), z3.Int(H.fresh_name("cw_j"))
+    return z3.And(
+        z3.ForAll([t], z3.Implies(in_graph(h, g, t), z3.And(t != 0, h.d_val(Adj, g_children(h, g), t) != 0, _ts_known(h, t))), patterns=[in_graph(h, g, t)]),
+        # children are nodes of the graph (add_child registers the child)
+        z3.ForAll([t, j], z3.Implies(z3.And(in_graph(h, g, t), 0 <= j, j < n_children(h, g, t)), z3.And(child_at0(h, g, t, j) != 0, in_graph(h, g, child_at0(h, g, t, j)))), patterns=[child_at0(h, g, t, j)]),
+    )
+
+
+Contract("workload.graph.Graph.get_nodes", inline=True, props=("C06",))
+Contract("workload.graph.Graph.filter", inline=True, props=("C06",))
+
+Contract(
+    TG + ".is_sink_task",
+    params={"self": TGR, "task": S_.TASKR},
+    ret=T.BOOL,
+    requires=lambda c: {"children_wf": _children_wf(c.pre, c.arg("self"))},
+    raises={"ValueError": lambda c: z3.Not(in_graph(c.pre, c.arg("self"), c.arg("task")))},
+    ensures=lambda c: {"is_sink.by_definition": c.res == is_sink_spec(c.pre, c.arg("self"), c.arg("task"))},
+    props=("C06",),
+)
+
+Contract(
+    TG + ".get_sink_tasks",
+    params={"self": TGR},
+    ret=TaskList,
+    requires=lambda c: {"children_wf": _children_wf(c.pre, c.arg("self"))},
+    ensures=lambda c: {
+        "sinks.exactly": z3.ForAll(
+            [z3.Int("gs_t")],
+            c.post.l_mem(TaskList, c.res, z3.Int("gs_t")) == z3.And(in_graph(c.pre, c.arg("self"), z3.Int("gs_t")), is_sink_spec(c.pre, c.arg("self"), z3.Int("gs_t"))),
+            patterns=[c.post.l_mem(TaskList, c.res, z3.Int("gs_t"))],
+        ),
+        "sinks.fresh_list": c.res >= c.alloc0,
+    },
+    allocates=True,
+    props=("C06",),
+)
+
+Contract(
+    TG + ".is_complete#body",
+    params={"self": TGR},
+    ret=T.BOOL,
+    requires=lambda c: {"children_wf": _children_wf(c.pre, c.arg("self"))},
+    # C06: reported finished EXACTLY when all its sink tasks completed
+    ensures=lambda c: {"graph_complete.iff_all_sinks_complete": c.res == graph_complete_spec(c.pre, c.arg("self"))},
+    allocates=True,
+    note="verified against the body; callers (the finish handler) use the abstract contract: a pure function of the task states",
+    props=("C06", "C08"),
+)
+
+Contract(
+    TG + ".is_cancelled#body",
+    params={"self": TGR},
+    ret=T.BOOL,
+    requires=lambda c: {"children_wf": _children_wf(c.pre, c.arg("self"))},
+    ensures=lambda c: {"graph_cancelled.iff_some_sink_cancelled": c.res == graph_cancelled_spec(c.pre, c.arg("self"))},
+    allocates=True,
+    note="verified against the body; callers use the abstract contract",
+    props=("C06",),
+)
